@@ -13,7 +13,7 @@ def tables(tier):
         "promo_13_5": b(Type="promotion", LevelsC={1, 3}, MaxT=5, Vals={0, 1, 2, 3}, MRA=True),
         "pasha": b(Type="pasha", LevelsC={1, 2, 4}, MaxT=8, Vals={0, 1}, MRA=True),
         "pasha_max": b(Type="pasha", LevelsC={1, 2, 3}, MaxT=4, Vals={0, 1, 2}, MRA=True, IsMin=False),
-        # PASHA with two brackets sharing one rung system (known finding F20: the ranking comparison raises IndexError
+        # PASHA with two brackets sharing one rung system (F20, repaired in /repo: the ranking comparison raised IndexError
         # for a trial that skipped the lowest rung)
         "pasha_2br": b(Type="pasha", LevelsC={1, 2, 4}, MaxT=8, Vals={0, 1}, MRA=True, NBr=2),
         "cost": b(Type="cost_promotion", Costs={1, 2}, MRA=True), "cost_nockpt": b(Type="cost_promotion", Costs={1, 3}, Ckpt=False),
